@@ -500,6 +500,111 @@ func c18SettingEdits(c *vlib.Ctx) {
 	}
 }
 
+// c18SecretRotation: the configuration text stays the same (or changes only in
+// spelling); what changes is the content behind its secret references (file:,
+// env:). A reload that reports success must behave like a fresh start on the
+// same files - new secrets in force, old ones rejected - and a reload whose
+// secrets cannot be loaded must report failure and leave everything as before.
+func c18SecretRotation(c *vlib.Ctx) {
+	dir := c.Scratch()
+	tokFile := filepath.Join(dir, "c18-rot-pulltok")
+	admFile := filepath.Join(dir, "c18-rot-admtok")
+	const envHMAC = "VERIF_C18_ROT_HMAC"
+	text := fmt.Sprintf("ingress { listen 127.0.0.1:0 }\npull_api { listen 127.0.0.2:0\n auth token file:%s }\nadmin_api { listen 127.0.0.3:0\n auth token file:%s }\n/a { queue { backend memory }\n auth hmac env:%s\n pull { path /pa } }\n", tokFile, admFile, envHMAC)
+	setAll := func(gen string) {
+		_ = os.WriteFile(tokFile, []byte("ptok-"+gen+"\n"), 0o600)
+		_ = os.WriteFile(admFile, []byte("atok-"+gen+"\n"), 0o600)
+		os.Setenv(envHMAC, "hsecret-"+gen)
+	}
+	nonce := 0
+	fp := func(a *l2.App, clock *vlib.VClock) []string {
+		var out []string
+		for _, gen := range []string{"old", "new"} {
+			resp := l2.Do(a.Pull, l2.JSONReq("POST", a.Compiled.PullAPI.Prefix+"/pa/dequeue", map[string]any{"batch": 1}, "ptok-"+gen))
+			out = append(out, fmt.Sprintf("pull with %s token => %d", gen, resp.Status))
+			resp = l2.Do(a.Admin, l2.JSONReq("GET", a.Compiled.AdminAPI.Prefix+"/healthz", nil, "atok-"+gen))
+			out = append(out, fmt.Sprintf("admin with %s token => %d", gen, resp.Status))
+			nonce++
+			body := []byte("x")
+			resp = l2.Do(a.Ingress, signedReq("hsecret-"+gen, "/a", clock.Now().Unix(), fmt.Sprintf("rot-%d", nonce), body))
+			out = append(out, fmt.Sprintf("POST /a signed with %s secret => %d", gen, resp.Status))
+		}
+		return out
+	}
+	type tc struct {
+		name   string
+		mutate func()
+		edit   func(string) string // spelling-only change of the file (nil = untouched)
+		unload bool                // the reload cannot load its secrets
+	}
+	cases := []tc{
+		{"rotate_all_untouched_file", func() { setAll("new") }, nil, false},
+		{"rotate_pull_token_only", func() { _ = os.WriteFile(tokFile, []byte("ptok-new\n"), 0o600) }, nil, false},
+		{"rotate_hmac_env_only", func() { os.Setenv(envHMAC, "hsecret-new") }, nil, false},
+		{"rotate_all_reformatted_file", func() { setAll("new") }, func(t string) string { return strings.ReplaceAll(t, "\n auth", "\n    auth") + "# touched\n" }, false},
+		{"token_file_removed_untouched_file", func() { _ = os.Remove(tokFile) }, nil, true},
+		{"hmac_env_unset_untouched_file", func() { os.Unsetenv(envHMAC) }, nil, true},
+		{"admin_token_file_blank_untouched_file", func() { _ = os.WriteFile(admFile, []byte("\n"), 0o600) }, nil, true},
+		{"no_change_at_all", func() {}, nil, false},
+	}
+	for _, k := range cases {
+		setAll("old")
+		clock := vlib.NewVClock(c08T0)
+		a, err := l2.Start(dir, text, nil, clock)
+		if err != nil {
+			c.Inconclusive("C18 rotation config did not start: " + err.Error())
+			return
+		}
+		before := fp(a, clock)
+		k.mutate()
+		next := text
+		if k.edit != nil {
+			next = k.edit(text)
+			_ = a.WriteConfig(next)
+		}
+		ok := a.Reload()
+		after := fp(a, clock)
+		c.Count("evaluations", 1)
+		c.Count("secret_rotation_trials", 1)
+		c.Distinct("nontrivial", fmt.Sprintf("secret_rotation:%s:applied=%v", k.name, ok))
+		wit := map[string]any{"case": k.name, "reload_reported_ok": ok, "before": before, "after": after}
+		if c.Counter("secret_rotation_trials") <= 1 {
+			c.Sample(map[string]any{"part": "secret_rotation", "case": k.name, "reload_reported_ok": ok, "fingerprint_before": before, "fingerprint_after": after})
+		}
+		if k.unload && ok {
+			c.Violation(vlib.Signature{"class": "invalid_reload_applied", "failure": "secrets:" + k.name}, fmt.Sprintf("reload reported success although its secrets cannot be loaded (%s)", k.name), wit)
+		}
+		if !ok {
+			for i := range before {
+				if before[i] != after[i] {
+					c.Violation(vlib.Signature{"class": "behaviour_changed_by_failed_reload", "failure": "secrets:" + k.name, "probe": strings.SplitN(before[i], " => ", 2)[0]},
+						fmt.Sprintf("reload (%s) was refused but a probe changed: %q -> %q", k.name, before[i], after[i]), wit)
+					break
+				}
+			}
+		} else if !k.unload {
+			refClock := vlib.NewVClock(c08T0)
+			ref, err := l2.Start(dir, next, nil, refClock)
+			if err != nil {
+				c.Inconclusive("C18 rotation reference did not start: " + err.Error())
+			} else {
+				want := fp(ref, refClock)
+				wit["fresh_start"] = want
+				for i := range want {
+					if want[i] != after[i] {
+						c.Violation(vlib.Signature{"class": "reload_differs_from_fresh_start", "setting": "secrets:" + k.name, "probe": strings.SplitN(want[i], " => ", 2)[0]},
+							fmt.Sprintf("reload after %s reported success, but the probe answers %q where a fresh start on the same files answers %q", k.name, after[i], want[i]), wit)
+						break
+					}
+				}
+				ref.Close()
+			}
+		}
+		a.Close()
+	}
+	os.Unsetenv(envHMAC)
+}
+
 // c18Mixture: during a successful reload every request is served entirely under
 // the old or entirely under the new configuration.
 func c18Mixture(c *vlib.Ctx) {
@@ -669,6 +774,7 @@ func C18(c *vlib.Ctx) {
 	c18FailedReload(c)
 	c18ManagementAfterRefusedReload(c)
 	c18SettingEdits(c)
+	c18SecretRotation(c)
 	if c.Counter("management_mutations_applied") == 0 || c.Counter("management_mutations_refused") == 0 {
 		c.Inconclusive("C18 management part observed no applied or no refused mutation")
 	}
